@@ -26,6 +26,7 @@ structure Tun where
   goldNum : Nat := 6180339887498949     -- GOLDEN_RATIO_RECIPROCAL (iterator stride, L2 only)
   goldDen : Nat := 10000000000000000
   driftLimit : Nat := 1024  -- DRIFT_LIMIT (L2 only: insertion throws when the probe distance reaches it)
+  emptyByTotal : Bool := false  -- is_empty(): false = `num_active == 0` (pinned code), true = `total_weight == 0` (repaired code)
 
 abbrev Map (ι : Type) := List (ι × Nat)
 
@@ -109,6 +110,21 @@ def roundtrip (_T : Tun) (s : St ι) : St ι :=
   if s.map.isEmpty then { map := [], offset := 0, total := 0, lgCur := s.lgCur, lgMax := s.lgMax } else s
 
 def isEmpty (s : St ι) : Bool := s.map.isEmpty
+
+/-- the operations that depend on `is_empty()`, as the source has them NOW (`T.emptyByTotal` is read from the header):
+with `is_empty() = (total_weight == 0)` only a sketch that never saw a positive weight is skipped by merge and written as
+the empty image, so a fully purged sketch keeps its total weight and offset through merges and round trips -/
+def isEmptyF (T : Tun) (s : St ι) : Bool := if T.emptyByTotal then s.total == 0 else s.map.isEmpty
+def mergeF (T : Tun) (s o : St ι) (ents : List (Ent ι)) : St ι :=
+  if T.emptyByTotal then
+    if o.total = 0 then s else
+    let r := replay T s ents
+    { r with offset := r.offset + o.offset, total := s.total + o.total }
+  else merge T s o ents
+def roundtripF (T : Tun) (s : St ι) : St ι :=
+  if T.emptyByTotal then
+    (if s.total = 0 then { map := [], offset := 0, total := 0, lgCur := s.lgCur, lgMax := s.lgMax } else s)
+  else roundtrip T s
 def numActive (s : St ι) : Nat := s.map.length
 def lowerBound (s : St ι) (x : ι) : Nat := cnt s.map x
 def upperBound (s : St ι) (x : ι) : Nat := cnt s.map x + s.offset
